@@ -395,6 +395,11 @@ def wrap_shapely(method):
 
 def force_2d(geojson: Dict[str, Any]) -> Dict[str, Any]:
     assert "type" in geojson
+    if geojson["type"] == "GeometryCollection":
+        return {
+            "type": "GeometryCollection",
+            "geometries": [force_2d(g) for g in geojson.get("geometries", [])],
+        }
     assert "coordinates" in geojson
 
     def is_scalar(x):
